@@ -93,11 +93,11 @@ theorem column_seed_once_partial :
 section dedup
 variable [DecidableEq R]
 
-theorem mem_uniqueFirst (seen l : List R) (x : R) : x ∈ uniqueFirst seen l ↔ x ∈ l ∧ x ∉ seen := by
+theorem mem_uniqueFirst (seen l : List R) (x : R) : x ∈ firstOccurrences seen l ↔ x ∈ l ∧ x ∉ seen := by
   induction l generalizing seen with
-  | nil => simp [uniqueFirst]
+  | nil => simp [firstOccurrences]
   | cons y ys ih =>
-    simp only [uniqueFirst]
+    simp only [firstOccurrences]
     split_ifs with hy
     · rw [ih]; constructor
       · rintro ⟨h1, h2⟩; exact ⟨List.mem_cons_of_mem _ h1, h2⟩
@@ -116,11 +116,11 @@ theorem mem_uniqueFirst (seen l : List R) (x : R) : x ∈ uniqueFirst seen l ↔
           · exact Or.inl hxy
           · exact Or.inr ⟨h1, by simp [hxy, h2]⟩
 
-theorem nodup_uniqueFirst (seen l : List R) : (uniqueFirst seen l).Nodup := by
+theorem nodup_uniqueFirst (seen l : List R) : (firstOccurrences seen l).Nodup := by
   induction l generalizing seen with
-  | nil => simp [uniqueFirst]
+  | nil => simp [firstOccurrences]
   | cons y ys ih =>
-    simp only [uniqueFirst]
+    simp only [firstOccurrences]
     split_ifs with hy
     · exact ih seen
     · refine List.nodup_cons.mpr ⟨?_, ih _⟩
@@ -163,7 +163,7 @@ theorem dedupCounts_expand (l : List R) :
   rw [List.count_flatMap]
   unfold dedupCounts
   rw [List.map_map]
-  have := sum_count_replicate (uniqueFirst [] l) (fun r => l.count r) a (nodup_uniqueFirst [] l)
+  have := sum_count_replicate (firstOccurrences [] l) (fun r => l.count r) a (nodup_uniqueFirst [] l)
   simp only [Function.comp_def]
   rw [this]
   split_ifs with h
